@@ -930,7 +930,9 @@ def atom_is_real(a):
         return all(atom_is_real(b) for b, _ in a[1])
     if t == "fn":
         return a[1] in REAL_FNS and all(is_real(x) for x in a[2:] if isinstance(x, Poly))
-    if t in ("Re", "Im", "Mean", "Std", "MaxAbs", "Min", "Max", "I", "x", "x1", "k", "k1", "s", "num", "ind", "mask", "idx", "draw"):
+    if t == "I":
+        return len(a) >= 3 and isinstance(a[1], Poly) and _k_parity(a[1]) == 0
+    if t in ("Re", "Im", "Mean", "Std", "MaxAbs", "Min", "Max", "Idc", "x", "x1", "k", "k1", "s", "num", "ind", "mask", "idx", "draw"):
         return True
     return False
 
@@ -938,13 +940,59 @@ def atom_is_real(a):
 REAL_FNS = {"sin", "cos", "minimum", "maximum"}
 
 
+def _k_parity(q, half_even=False):
+    """parity (0 even / 1 odd) of a polynomial under k -> -k, None if mixed or unknown.  Inside a comparison
+    (half_even) a wavenumber of the halved rfft axis is non-negative by layout: the predicate is a predicate on
+    |k| and hence symmetric on the Hermitian-completed spectrum."""
+    par = None
+    for m, c in q.t.items():
+        d = 0
+        for a, e in m:
+            t = a[0]
+            if t in ("k", "k1"):
+                if not (half_even and a[-1] == "half"):
+                    d += e
+            elif t in ("s", "num"):
+                pass
+            elif t in ("P", "R", "abs"):
+                ip = _k_parity(a[1], half_even)
+                if ip is None:
+                    return None
+                if t == "abs":
+                    ip = 0
+                d += ip * e
+            elif t == "ind":
+                for x in a[1:]:
+                    if isinstance(x, Poly) and _k_parity(x, True) != 0:
+                        return None
+            else:
+                return None
+        d %= 2
+        if par is None:
+            par = d
+        elif par != d:
+            return None
+    return 0 if par is None else par
+
+
+def atom_phase(a):
+    """0: real-valued, 1: purely imaginary, None: unknown.  I[m, X] - the inverse transform of m(k) X(k) with X the
+    spectrum of a real field - is real for an even multiplier and purely imaginary for an odd one."""
+    if a[0] == "I" and len(a) >= 3 and isinstance(a[1], Poly):
+        return _k_parity(a[1])
+    return 0 if atom_is_real(a) else None
+
+
 def is_real(p):
     for m, c in p.t.items():
-        if c.im != 0:
-            return False
-        for a, _ in m:
-            if not atom_is_real(a):
+        ph = 0
+        for a, e in m:
+            x = atom_phase(a)
+            if x is None:
                 return False
+            ph += x * e
+        if (c.im != 0) if ph % 2 == 0 else (c.re != 0):
+            return False
     return True
 
 
